@@ -168,9 +168,19 @@ Exp(p, l) == IF p \in sup[p][l] THEN "reg" ELSE IF sup[p][l] # {} THEN "rel" ELS
 DRelate(su, un, c, ps, ls, pd, ld) ==
   LET c1 == Merge(c, ps, pd)
       m == Class(c1, ps)
-      su1 == [su EXCEPT ![ps][ld] = @ \cup {pd}]
-      su2 == [su1 EXCEPT ![pd][ls] = @ \cup {ps}]
-      \* the code also hands the new copy to everything already related to the source (transitively): undecided
+      \* RELATION CLOSURE (clause "related to such a registration"): every copy of the data of ps that is certain
+      \* when the relation is declared -- the source itself and each <<q, lq>> with q \in su[ps][lq], i.e. the other
+      \* ends of the relations / wrapped registrations the source already takes part in -- is a copy of the same data
+      \* as the destination: the destination becomes a certain copy of each such q (on ld, at pd) and each such q
+      \* a certain copy of pd (on lq, at q).  With one relation per source this is the pair (ps, pd) only; with a
+      \* fan-out (relate(A,B); relate(A,C)), a chain (relate(A,B); relate(B,C)) or a location wrapped more than
+      \* once (register_path relates the outermost copy to every inner one) it also links B with C.
+      K == {<<ps, ls>>} \cup {x \in Paths \X Locs : x[1] \in su[ps][x[2]]}
+      su2 == [p \in Paths |-> [l \in Locs |->
+                 su[p][l] \cup (IF l = ld /\ \E x \in K : x[1] = p THEN {pd} ELSE {})
+                          \cup (IF p = pd THEN {x[1] : x \in {y \in K : y[2] = l}} ELSE {})]]
+      \* beyond the copies that are certain (copies that were invalidated in the meantime, paths related to the
+      \* DESTINATION, longer chains) the code hands the new copy to further nodes: undecided
       un1 == [p \in Paths |-> [l \in Locs |-> un[p][l] \/ (p \in m /\ l = ld) \/ p = pd]]
   IN [su |-> su2, un |-> un1, c |-> c1]
 
